@@ -9,6 +9,7 @@ import (
 	"regexp"
 	"sort"
 	"strings"
+	"sync"
 	"time"
 
 	"verif/internal/grun"
@@ -192,6 +193,16 @@ func randProg(r *rand.Rand, seq *int) hProg {
 	nc := 2 + r.Intn(4)
 	for i := 0; i < nc; i++ {
 		p.Calls = append(p.Calls, randCall(r, p, seq))
+	}
+	// every second program has a function-typed flow between two derive calls, every second a four-deep chain
+	if r.Intn(2) == 0 {
+		*seq++
+		args := p.structArgs()
+		p.Calls = append(p.Calls, hCall{Kind: "curryflow", Name: fmt.Sprintf("N%d", *seq), Arg: args[r.Intn(len(args))]})
+	}
+	if r.Intn(2) == 0 {
+		*seq++
+		p.Calls = append(p.Calls, hCall{Kind: "deepchain", Name: fmt.Sprintf("N%d", *seq), Arg: hMapTypes[r.Intn(len(hMapTypes))]})
 	}
 	return p.dedupCalls()
 }
@@ -526,20 +537,29 @@ func checkC07(c *Ctx) {
 	nh := tierN(c, 10, 24)
 	steps := tierN(c, 3, 4)
 	_, straceErr := exec.LookPath("strace")
-	for h := 0; h < nh; h++ {
+	perHist := make([][]c07Case, nh)
+	var notes, counts []string
+	var mu sync.Mutex
+	parallel(nh, 10, func(h int) {
+		var cases []c07Case
+		defer func() { perHist[h] = cases }()
 		r := rand.New(rand.NewSource(c.Seed*1009 + int64(h)))
 		seq := 0
 		prog := randProg(r, &seq)
 		prevSrc := prog.render()
 		prevRef := c.genScratch(prevSrc)
 		if prevRef.exit != 0 {
-			c.Run.Inconclusive(fmt.Sprintf("history %d: initial program is not generated from scratch (left to C01): %s", h, firstLine(prevRef.stderr)))
-			continue
+			mu.Lock()
+			notes = append(notes, fmt.Sprintf("history %d: initial program is not generated from scratch (left to C01): %s", h, firstLine(prevRef.stderr)))
+			mu.Unlock()
+			return
 		}
 		if !prevRef.builds {
 			// whether the from-scratch output compiles is C01's subject; independence of the prior file is
 			// still decided for this history (bytes against the from-scratch run)
-			c.Run.Count("history-whose-from-scratch-output-does-not-compile", 1)
+			mu.Lock()
+			counts = append(counts, "history-whose-from-scratch-output-does-not-compile")
+			mu.Unlock()
 		}
 		// systematically: every single call removed from / added to the initial program (one of them is
 		// the call whose functions come last in the file, one the call whose functions come first)
@@ -555,6 +575,23 @@ func checkC07(c *Ctx) {
 				if qref := c.genScratchOpt(qsrc, false); qref.exit == 0 && qref.exists {
 					cases = append(cases, c07Case{Name: fmt.Sprintf("c07-h%03d-add%d", h, ci), Class: "history:add-call", Desc: fmt.Sprintf("history %d: call %d of %d added back: one run over the output of the program without it", h, ci, len(prog.Calls)), Src: prevSrc, Prior: qref.derived, HasPrev: true, PrevSrc: qsrc})
 				}
+			}
+		}
+		// systematically: every type renamed (the old file's signatures mention a name that no longer exists)
+		if prevRef.exists {
+			for ti := range prog.Types {
+				q := prog.clone()
+				old, nn := q.Types[ti].Name, fmt.Sprintf("Z%d", ti)
+				q.Types[ti].Name = nn
+				for tj := range q.Types {
+					for fi := range q.Types[tj].Fields {
+						q.Types[tj].Fields[fi].Type = hRename(q.Types[tj].Fields[fi].Type, old, nn)
+					}
+				}
+				for ci := range q.Calls {
+					q.Calls[ci].Arg = hRename(q.Calls[ci].Arg, old, nn)
+				}
+				cases = append(cases, c07Case{Name: fmt.Sprintf("c07-h%03d-ren%d", h, ti), Class: "history:rename-type", Desc: fmt.Sprintf("history %d: type %s renamed to %s: one run over the old program's output", h, old, nn), Src: q.render(), Prior: prevRef.derived, HasPrev: true, PrevSrc: prevSrc})
 			}
 		}
 		// the earlier version had ONE more call whose functions come last in the file and need no further
@@ -658,6 +695,16 @@ func checkC07(c *Ctx) {
 			}
 			prevSrc, prevRef = src, ref
 		}
+	})
+	for _, cs := range perHist {
+		cases = append(cases, cs...)
+	}
+	sort.Strings(notes)
+	for _, n := range notes {
+		c.Run.Inconclusive(n)
+	}
+	for _, k := range counts {
+		c.Run.Count(k, 1)
 	}
 	if straceErr != nil {
 		c.Run.Inconclusive("strace not available: real crash states were not produced")
